@@ -321,6 +321,9 @@ func checkC08Case(c *Case, rep *core.Report) {
 func checkInfo(c *Case, rep *core.Report, f *refmcap.File, data []byte, want *refmcap.Aggregates) {
 	var info *mcap.Info
 	var ierr error
+	// every third case asks for Info on a Reader that has already served a filtered, index-based
+	// Messages call: what Info reports must not depend on what the Reader was used for before
+	afterMessages := c.Index%3 == 1
 	p := core.Safe(func() {
 		r, err := mcap.NewReader(bytes.NewReader(withMagic(c, data)))
 		if err != nil {
@@ -328,8 +331,20 @@ func checkInfo(c *Case, rep *core.Report, f *refmcap.File, data []byte, want *re
 			return
 		}
 		defer r.Close()
+		if afterMessages {
+			opts := []mcap.ReadOpt{mcap.AfterNanos(want.MessageStartTime/2 + want.MessageEndTime/2), mcap.InOrder(mcap.ReadOrder(c.Index % 3))}
+			if ts := c.W.Topics(); len(ts) > 0 {
+				opts = append(opts, mcap.WithTopics(ts[:1]))
+			}
+			if it, err := r.Messages(opts...); err == nil {
+				_, _, _, _ = it.NextInto(nil)
+			}
+		}
 		info, ierr = r.Info()
 	})
+	if afterMessages {
+		rep.Count("info_calls_after_filtered_messages", 1)
+	}
 	if p != nil {
 		rep.Violate("info-panic", fmt.Sprintf("%s: Info panicked: %v", c.Describe(), p), c.Witness())
 		return
@@ -479,7 +494,7 @@ func targetedC08Case(ctx *core.Ctx, i int) *Case {
 
 func RunC08(ctx *core.Ctx, rep *core.Report) {
 	rep.Rule = "same (workload, configuration) stream as C01 plus targeted stateful shapes (first message at log time 0 then more chunks, descending times across chunks, trailing message-less chunk, channels without messages, re-written records, unchunked). " +
-		"Writer.Statistics after Close, the statistics record decoded by the reference decoder and Reader.Info are compared with aggregates recomputed from the call log; Info's listings with the summary groups the reference decoder sees. " +
+		"Writer.Statistics after Close, the statistics record decoded by the reference decoder and Reader.Info (on a fresh Reader, and on a Reader that has already served a filtered index-based Messages call) are compared with aggregates recomputed from the call log; Info's listings with the summary groups the reference decoder sees. " +
 		"distinct_nontrivial counts distinct (shape, configuration) pairs with at least one message."
 	rep.Assumptions = []string{"call log is ground truth; chunk count and summary groups come from the reference decoder"}
 	n, cross := writeFamilyCases(ctx, 2500, 80000)
